@@ -48,7 +48,7 @@ def src(node, maxlen=2000):
 
 
 FUNC_TYPES = (ast.FunctionDef, ast.AsyncFunctionDef, ast.Lambda)
-MAX_SHARED_HELPER_STMTS = 8
+MAX_SHARED_HELPER_STMTS = 12
 MAX_HELPER_USES = int(os.environ.get("VERIF_HELPER_USES", "3"))    # private helpers with up to this many references are analysed in place
 SCOPE_TYPES = FUNC_TYPES + (ast.ClassDef,)
 
@@ -267,8 +267,10 @@ def _names_known_to_rules():
             except (OSError, SyntaxError):
                 continue
             for n in ast.walk(tree):
-                if isinstance(n, ast.Constant) and isinstance(n.value, str):
-                    res.update(re.findall(r'[A-Za-z_][A-Za-z0-9_]*', n.value))
+                # a string constant that IS an identifier / a dotted name (what m.method(cls, 'name') and friends take), not
+                # the words of messages and doc strings
+                if isinstance(n, ast.Constant) and isinstance(n.value, str) and re.fullmatch(r'[A-Za-z_][A-Za-z0-9_.]*', n.value):
+                    res.update(n.value.split('.'))
         _KNOWN_NAMES = res
     return _KNOWN_NAMES
 
@@ -434,6 +436,13 @@ class Model:
                 if isinstance(n, ast.Attribute) and n.attr.startswith('_') and not n.attr.endswith('__'):
                     uses[n.attr] = uses.get(n.attr, 0) + 1
         self._orig_size = {fi.qualname: sum(isinstance(n, ast.stmt) for n in ast.walk(fi.node)) - 1 for fi in self.functions.values()}
+        # module level helper functions: references by bare name inside their own module
+        self._func_uses = {}
+        for mod in self.modules.values():
+            for n in ast.walk(mod.tree):
+                if isinstance(n, ast.Name) and isinstance(n.ctx, ast.Load) and f'{mod.name}.{n.id}' in self.functions:
+                    k = f'{mod.name}.{n.id}'
+                    self._func_uses[k] = self._func_uses.get(k, 0) + 1
         for rnd in range(2):
             changed = False
             for fi in list(self.functions.values()):
@@ -472,26 +481,40 @@ class Model:
                 # `if self._helper(...):` reads as `_r = self._helper(...)` followed by `if _r:`;
                 # `if a and self._helper(...): B` (no else) as `if a:` + `_r = self._helper(...)` + `if _r: B`
                 call = st.test if isinstance(st.test, ast.Call) else st.test.values[-1]
-                syn = ast.Assign(targets=[ast.Name(id='_r_' + getattr(call.func, 'attr', 'h').lstrip('_'), ctx=ast.Store())], value=call, type_comment=None)
+                syn = ast.Assign(targets=[ast.Name(id='_r_' + (getattr(call.func, 'attr', None) or getattr(call.func, 'id', 'h')).lstrip('_'), ctx=ast.Store())], value=call, type_comment=None)
                 ast.fix_missing_locations(ast.copy_location(syn, st))
                 st = _IfCall(st, syn)
             else:
                 continue
             f = call.func
-            if not (isinstance(f, ast.Attribute) and f.attr.startswith('_') and not f.attr.endswith('__') and 1 <= uses.get(f.attr, 0) <= MAX_HELPER_USES):
-                continue
-            if f.attr in known or f.attr.lstrip('_') in known:
-                continue    # a unit the rules address by name is analysed as a unit
+            modfunc = None
+            if isinstance(f, ast.Name):
+                # a module level helper of the same module (extract-function refactoring), small and used in a few places only
+                modfunc = self.functions.get(f'{fi.module.name}.{f.id}')
+                if modfunc is None or modfunc.cls is not None or modfunc.parent is not None or modfunc is fi:
+                    continue
+                nuses = self._func_uses.get(modfunc.qualname, 0)
+                if not (1 <= nuses <= MAX_HELPER_USES) or self._orig_size.get(modfunc.qualname, 99) > MAX_SHARED_HELPER_STMTS:
+                    continue
+                if f.id in known or f.id.lstrip('_') in known:
+                    continue
+                hname = f.id
+            else:
+                if not (isinstance(f, ast.Attribute) and f.attr.startswith('_') and not f.attr.endswith('__') and 1 <= uses.get(f.attr, 0) <= MAX_HELPER_USES):
+                    continue
+                if f.attr in known or f.attr.lstrip('_') in known:
+                    continue    # a unit the rules address by name is analysed as a unit
+                hname = f.attr
             # the statement has to belong to fi itself, not to a nested def
             owner = st.ifnode if isinstance(st, _IfCall) else st
             while owner is not None and not isinstance(owner, FUNC_TYPES):
                 owner = getattr(owner, 'parent', None)
             if owner is not fi.node:
                 continue
-            h = self._helper_for(fi, call)
+            h = modfunc if modfunc is not None else self._helper_for(fi, call)
             if h is None or not isinstance(h.node, ast.FunctionDef):
                 continue
-            binding = self._bind(h.node, call)
+            binding = self._bind(h.node, call, is_method=modfunc is None)
             if binding is None:
                 continue
             body = [x for x in h.node.body]
@@ -499,7 +522,7 @@ class Model:
                 body = body[1:]
             if not body:
                 continue
-            if uses.get(f.attr, 0) > 1 and self._orig_size.get(h.qualname, 99) > MAX_SHARED_HELPER_STMTS:
+            if modfunc is None and uses.get(f.attr, 0) > 1 and self._orig_size.get(h.qualname, 99) > MAX_SHARED_HELPER_STMTS:
                 continue    # a larger shared helper is a unit of its own (rules find it by role)
             rets = [n for n in walk_local(h.node) if isinstance(n, ast.Return)]
             if any(isinstance(n, (ast.Yield, ast.YieldFrom)) for n in walk_local(h.node)):
@@ -530,7 +553,7 @@ class Model:
         return res
 
     @staticmethod
-    def _bind(hnode, call):
+    def _bind(hnode, call, is_method=True):
         """parameter name -> argument expression (None when the shape is not simple)"""
         a = hnode.args
         if a.vararg or a.kwarg or a.kwonlyargs or a.posonlyargs:
@@ -539,7 +562,7 @@ class Model:
         if decos - {'staticmethod'}:
             return None
         params = [x.arg for x in a.args]
-        if 'staticmethod' not in decos:
+        if 'staticmethod' not in decos and is_method:
             params = params[1:]
         if any(isinstance(x, ast.Starred) for x in call.args) or any(k.arg is None for k in call.keywords) or len(call.args) > len(params):
             return None
@@ -596,14 +619,26 @@ class Model:
                 ifst, call, helper, binding, body, pre, syn = orig
                 ost = syn if syn is not None else ifst
                 emitted = []
+                stmts = [clone(x) for x in body]
+                # a parameter the helper never re-binds and that receives a plain name / constant / dotted name is substituted in
+                # the copy (`datatype.min` reads `self.min` again); the others are bound by an assignment in front
+                stored = {n.id for x in body for n in ast.walk(x) if isinstance(n, ast.Name) and isinstance(n.ctx, (ast.Store, ast.Del))}
+                subst = {prm: arg for prm, arg in binding.items()
+                         if prm not in stored and (isinstance(arg, (ast.Name, ast.Constant)) or (isinstance(arg, ast.Attribute) and dotted(arg)))}
+                if subst:
+                    class _Sub(ast.NodeTransformer):
+                        def visit_Name(self, node):
+                            if isinstance(node.ctx, ast.Load) and node.id in subst:
+                                return ast.copy_location(_clone_ast(subst[node.id]), node)
+                            return node
+                    stmts = [ast.fix_missing_locations(_Sub().visit(x)) for x in stmts]
                 for prm, arg in binding.items():
-                    if isinstance(arg, ast.Name) and arg.id == prm:
+                    if (isinstance(arg, ast.Name) and arg.id == prm) or prm in subst:
                         continue
                     a = ast.Assign(targets=[ast.Name(id=prm, ctx=ast.Store())], value=clone(arg), type_comment=None)
                     ast.copy_location(a, ost)
                     ast.fix_missing_locations(a)
                     emitted.append(a)
-                stmts = [clone(x) for x in body]
                 last = stmts[-1]
                 if pre:
                     pass        # returns were dealt with by _eliminate_returns (or are kept: `return self._helper()`)
